@@ -229,7 +229,11 @@ def run(ctx):
               "call %s subhuge 4100 65535", "call %s unsubhuge 4097 65535", "call %s subhuge 4096 65533"]
     sscripts = []
     for k in range(3 if ctx.quick() else 12):
-        sc = ["init 636c69 0 4 4", "dial ok 20020000", "feed block", "rs", "call keep sub 1 612f62", "counters", "store"]
+        # a Config that is refused leaves the Persistence as it was: the session can still be initialised afterwards
+        sc = []
+        for variant in r.sample(["nuluser", "baduser", "bigpass", "willnotopic", "badwilltopic", "bigwill", "nodialer"], 3):
+            sc += ["initx 636c69 " + variant, "store"]
+        sc += ["init 636c69 0 4 4", "dial ok 20020000", "feed block", "rs", "call keep sub 1 612f62", "counters", "store"]
         picks = r.sample(denied[:12], 6) + r.sample(denied[12:], 1 if ctx.quick() else 2)
         r.shuffle(picks)
         for j, d in enumerate(picks):
@@ -242,6 +246,17 @@ def run(ctx):
         last_ctr, last_store = None, None
         for i, (op, lines) in enumerate(tr):
             f = op.split()
+            if f and f[0] == "initx":
+                stats["deny_session_ops"] += 1
+                after = [l for o, ls in tr[i + 1:i + 2] for l in ls if l.startswith("store")]
+                if any(l.startswith("init ok") for l in lines):
+                    v.violation("C09:config-accepted", "InitSession accepted the illegal Config `%s`" % f[2], {"port": "session", "script": sc[:i + 2], "impl": io[:8]})
+                elif any(l.startswith("ev save") for l in lines) or (after and after[0].strip() != "store"):
+                    v.violation("C09:deny-trace:init", "InitSession refused the Config `%s` and left a trace in the Persistence: %s" % (f[2], (lines + after)[:3]),
+                                {"port": "session", "script": sc[:i + 2], "impl": io[:8]})
+            if f and f[0] == "init" and not any(l == "init ok" for l in lines):
+                v.violation("C09:deny-trace:init", "InitSession with a legal Config fails after refused attempts on the same Persistence: %s" % lines[:2],
+                            {"port": "session", "script": sc[:i + 1], "impl": io[:10]})
             den = any(l.split()[-1:] == ["deny"] for l in lines if l.startswith(("ret ", "pub err")))
             if den:
                 stats["deny_session_ops"] += 1
